@@ -322,6 +322,11 @@ impl FlowKey {
 /// Application-level operations (application tap), recorded when they return.
 #[derive(Clone, Debug)]
 pub enum AppOp {
+    /// an application task working on a flow started / ended (any outcome)
+    TaskStart { flow: FlowKey, sender: bool },
+    TaskEnd { flow: FlowKey, sender: bool },
+    ConnectBegin,
+    OpenBegin,
     ConnectOk { conn: u64 },
     ConnectErr { kind: CloseKind },
     Accepted { conn: u64 },
@@ -496,6 +501,7 @@ pub type Shared = Arc<Mutex<World>>;
 impl World {
     pub fn new(params: Arc<Params>, verbose: bool) -> Shared {
         let mons = Monitors::new(&params);
+        let targeted = params.targeted.clone();
         Arc::new(Mutex::new(World {
             ctx: Ctx {
                 params,
@@ -510,7 +516,7 @@ impl World {
                 features: BTreeMap::new(),
                 n_violations: 0,
                 done: false,
-                targeted: Vec::new(),
+                targeted,
                 plans: HashMap::new(),
                 client_live: BTreeMap::new(),
                 clients_running: 0,
